@@ -199,8 +199,10 @@ void mustache::SystemManager::removeSystem(const std::string& system_name) noexc
         return;
     }
 
-    (void ) std::remove(data_->ordered_systems.begin(), data_->ordered_systems.end(), find_res->second);
-    (void ) std::remove(data_->systems_info.begin(), data_->systems_info.end(), find_res->second);
+    auto& ordered_systems = data_->ordered_systems;
+    ordered_systems.erase(std::remove(ordered_systems.begin(), ordered_systems.end(), find_res->second), ordered_systems.end());
+    auto& systems_info = data_->systems_info;
+    systems_info.erase(std::remove(systems_info.begin(), systems_info.end(), find_res->second), systems_info.end());
     data_->system_by_name.erase(find_res);
 
     reorderSystems();
